@@ -23,13 +23,24 @@ type MultiPassReader struct {
 	rs          io.ReadSeeker
 	passesCount int
 	passesLimit int
+	// hasData is set once something else than white space has been read.
+	hasData bool
 }
 
 func (r *MultiPassReader) Read(p []byte) (n int, err error) {
 	n, err = r.rs.Read(p)
+	if !r.hasData {
+		for _, b := range p[:n] {
+			if b != ' ' && b != '\t' && b != '\r' && b != '\n' {
+				r.hasData = true
+				break
+			}
+		}
+	}
 	if err == io.EOF {
 		r.passesCount++
-		if r.passesLimit <= 0 || r.passesCount < r.passesLimit {
+		// An empty or blank source has nothing to repeat: rewinding it would never end.
+		if r.hasData && (r.passesLimit <= 0 || r.passesCount < r.passesLimit) {
 			_, err = r.rs.Seek(0, io.SeekStart)
 		}
 	}
